@@ -16,7 +16,7 @@ func init() {
 		id: "C10",
 		li: levelInfo{
 			Level:       "other",
-			Explanation: "Static necessary conditions of the RESP codec's round trip. R1: the set of RespType constants, the decoder's two dispatches and the encoder's dispatch are the same set. R2 (escape analysis): a slice aliasing the reader's internal buffer (the result of ReadSlice) flows only into byte comparisons, len, parsing and copies - never into a decoded value, a return of a text/bulk decoder, or any store; otherwise a later refill, which happens or not depending on how the bytes were chunked, rewrites an already decoded value. R3: bulk framing agreement - the decoder reads n+2 bytes, tests offsets n and n+1 against CR and LF and returns [:n]; the encoder writes length, CR LF, bytes, CR LF. R4: null != empty by construction - the nil constant is returned exactly on the -1 paths, every other path returns an allocation that cannot be nil (read size provably >= 1, make for arrays); the encoder emits -1 exactly under == nil. R5: both length limits are tested before the allocation/read they protect (zone witnesses). R6: the buffered reader's 'buffer full' branch is taken only when the whole buffer is occupied by one unterminated line. Round-trip equality and chunk independence for all values are value-level and not decided. R7: the encoder's integer text comes from strconv / the itoa table, or from digit arithmetic that never negates a signed value. R8: the decoder's nesting counter is balanced on every path (shared with C11.R4) and inline commands are split on the space byte only. R2 also: an in-place append into a decoded text requires capacity-limited slab slices. R9: null and empty stay apart - no RESP text is replaced by a nil-ness changing copy of another text. R10: a hand-written n = n*10 + digit loop runs only over slices whose length has a zone witness small enough for the accumulator (18 digits for int64).",
+			Explanation: "Static necessary conditions of the RESP codec's round trip. R1: the set of RespType constants, the decoder's two dispatches and the encoder's dispatch are the same set. R2 (escape analysis): a slice aliasing the reader's internal buffer (the result of ReadSlice) flows only into byte comparisons, len, parsing and copies - never into a decoded value, a return of a text/bulk decoder, or any store; otherwise a later refill, which happens or not depending on how the bytes were chunked, rewrites an already decoded value. R3: bulk framing agreement - the decoder reads n+2 bytes, tests offsets n and n+1 against CR and LF and returns [:n]; the encoder writes length, CR LF, bytes, CR LF. R4: null != empty by construction - the nil constant is returned exactly on the -1 paths, every other path returns an allocation that cannot be nil (read size provably >= 1, make for arrays); the encoder emits -1 exactly under == nil. R5: both length limits are tested before the allocation/read they protect (zone witnesses). R6: the buffered reader's 'buffer full' branch is taken only when the whole buffer is occupied by one unterminated line. Round-trip equality and chunk independence for all values are value-level and not decided. R7: the encoder's integer text comes from strconv / the itoa table, or from digit arithmetic that never negates a signed value. R8: the decoder's nesting counter is balanced on every path (shared with C11.R4) and inline commands are split on the space byte only. R2 also: an in-place append into a decoded text requires capacity-limited slab slices. R9: null and empty stay apart - no RESP text is replaced by a nil-ness changing copy of another text. R10: a hand-written n = n*10 + digit loop runs only over slices whose length has a zone witness small enough for the accumulator (18 digits for int64). R11: the slab cursor only advances or takes a fresh chunk. R12: the line reader's line end is start-of-window + index + 1. R8 also requires the depth guard to accept exactly the named depth.",
 			TrustedBase: []string{"go/ssa", "samlint ebounds.go + zone.go"},
 		},
 		run: checkC10,
